@@ -80,3 +80,5 @@ func checkLock(lc LockCase) (r pbt.Result) {
 }
 
 func TestLockStepGoVsC(t *testing.T) { pbt.Run(t, genLock, checkLock) }
+
+func FuzzLockStepGoVsC(f *testing.F) { pbt.Fuzz(f, genLock, checkLock) }
